@@ -269,8 +269,9 @@ def validate(path):
 
 
 def run(run, tier, replay):
-    for m in ("Quic", "Gen_Quic", "Gen_QuicWakers", "Trace_Quic"):
-        vlib.sany(m)
+    with cf.ThreadPoolExecutor(max_workers=4) as ex:
+        for f in [ex.submit(vlib.sany, m) for m in ("Quic", "Gen_Quic", "Gen_QuicWakers", "Trace_Quic")]:
+            f.result()
     tmp = vlib.scratch()
     JTMP[0] = os.path.join(tmp, "jtmp")
     os.makedirs(JTMP[0])
